@@ -17,7 +17,7 @@ StepEv(e) ==
   CASE e.op = "begin" -> Begin /\ UNCHANGED ok
     [] e.op = "cell" ->        \* e.k: 1-based row-major position; e.note: supplied note; e.seen: pattern contents observed
        (IF pc # "busy" \/ e.k \notin 1..Len(cells) THEN Say("cell-outside-edit", "", e.k) /\ ok' = FALSE /\ UNCHANGED vars
-        ELSE LET g == e.seen = cells IN
+        ELSE LET g == ("blind" \in DOMAIN e /\ e.blind) \/ e.seen = cells IN     \* blind: the callable did not look at the pattern
              /\ Check(g, "contents-visible-during-edit", cells, e.seen)
              /\ Cell(e.k, e.note) /\ ok' = (ok /\ g))
     [] e.op = "fail" ->        \* the callable raised: contents exactly as before, the exception propagates
